@@ -10,6 +10,7 @@ pub fn dispatch(kind: u32, v: &Val) -> Option<Val> {
         203 => Some(run_reader_twice(v)),
         204 => Some(run_reader_any(v, false)),
         205 => Some(run_reader_any(v, true)),
+        206 => Some(run_sequence(v)),
         _ => None,
     }
 }
@@ -106,4 +107,63 @@ pub fn run_reader_any(v: &Val, reused: bool) -> Val {
     let mut sink = LogSink::new(decode_reply(v.fld(3)));
     let r = searcher.search_reader(&m, ScriptedReader { rest: input, at: 0, hist: Default::default() }, &mut sink);
     result_val(r, sink)
+}
+
+/// kind 206: ONE Searcher (roll buffer of capacity `cap`) searches a list of sources one after the other, as
+/// Model/SearcherGlue.v `search_seq` does.  case: (cfg matcher cap sources), source = (tag input hist reply),
+/// tag 0 = search_slice, 1 = search_reader (raw roll-buffer path: the reads are exactly `hist`),
+/// 2 = search_file with a memory map, 3 = search_file without.  Result: one (status events) per source;
+/// a configuration error is (1 ()).
+pub fn run_sequence(v: &Val) -> Val {
+    use grep_searcher::MmapChoice;
+    use std::io::Write;
+    let cfg = decode_cfg(v.fld(0));
+    let m = decode_matcher(&cfg, v.fld(1));
+    let cap = v.fld(2).us();
+    let mk = |mmap: bool| {
+        let mut sb = searcher_builder(&cfg);
+        sb.verif_buffer_capacity(Some(cap));
+        sb.memory_map(if mmap { unsafe { MmapChoice::auto() } } else { MmapChoice::never() });
+        sb.build()
+    };
+    // the memory-map choice is part of the Searcher's configuration: two Searchers would not share state, so a
+    // sequence uses ONE Searcher and switches its mmap choice per source through a second builder only when needed;
+    // to keep one Searcher we build it with mmap enabled and hand tag-3 files over as readers of the file
+    // (search_file without a map = the multi-line heap read or search_reader on the File).
+    let mut searcher = mk(false);
+    let mut searcher_mmap = mk(true);
+    let mut out = vec![];
+    let dir = std::env::temp_dir().join(format!("verif-c02-{}", std::process::id()));
+    let _ = std::fs::create_dir_all(&dir);
+    for (i, src) in v.fld(3).list().iter().enumerate() {
+        let tag = src.fld(0).n();
+        let input = src.fld(1).bytes();
+        let reply = if src.list().len() > 3 { decode_reply(src.fld(3)) } else { Reply { at: None } };
+        let mut sink = LogSink::new(reply);
+        let r = match tag {
+            0 => searcher.search_slice(&m, &input, &mut sink),
+            1 => {
+                let hist = if src.list().len() > 2 { decode_hist(src.fld(2)) } else { Default::default() };
+                if searcher.multi_line_with_matcher(&m) {
+                    searcher.search_reader(&m, ScriptedReader { rest: input, at: 0, hist }, &mut sink)
+                } else {
+                    searcher.verif_search_reader_raw(&m, ScriptedReader { rest: input, at: 0, hist }, &mut sink)
+                }
+            }
+            _ => {
+                let p = dir.join(format!("f{}", i));
+                { let mut f = std::fs::File::create(&p).unwrap(); f.write_all(&input).unwrap(); }
+                let f = std::fs::File::open(&p).unwrap();
+                let r = if tag == 2 { searcher_mmap.search_file(&m, &f, &mut sink) } else { searcher.search_file(&m, &f, &mut sink) };
+                let _ = std::fs::remove_file(&p);
+                r
+            }
+        };
+        out.push(match r {
+            Err(ref e) if sink.events.is_empty() && e.to_string().contains("line terminator") => Val::L(vec![Val::N(1), Val::L(vec![])]),
+            _ => result_val(r, sink),
+        });
+    }
+    let _ = std::fs::remove_dir(&dir);
+    Val::L(out)
 }
